@@ -6,9 +6,9 @@ import native
 import mailbox as mb
 
 
-def run_native(n_senders, n_msgs, n_drainers, n_stoppers, status0, thread_seq):
+def run_native(n_senders, n_msgs, n_drainers, n_stoppers, status0, thread_seq, serialized=()):
     out, lines, rc, err = native.run('mailbox', senders=n_senders, msgs=n_msgs, drainers=n_drainers, stoppers=n_stoppers, status0=status0,
-                                     schedule=thread_seq if thread_seq else [99], timeout=60)
+                                     schedule=thread_seq if thread_seq else [99], serialized=list(serialized), timeout=60)
     if rc != 0:
         raise RuntimeError('native mailbox replay failed: ' + err[-400:])
     res = {}
@@ -70,10 +70,10 @@ def concrete_oracle(prop, n_senders, n_msgs, n_drainers, n_stoppers, obs):
     return sorted(set(bad)), diverged
 
 
-def replay(prop, n_senders, n_msgs, n_drainers, n_stoppers, status0, sched, expected_bad, tries=40):
+def replay(prop, n_senders, n_msgs, n_drainers, n_stoppers, status0, sched, expected_bad, tries=40, serialized=()):
     seq = ['%d:%s' % (t, lbl) for (_, t, _, lbl, _) in sched if not lbl.endswith('try_recv')]
     attempts = []
-    obs = run_native(n_senders, n_msgs, n_drainers, n_stoppers, status0, seq)
+    obs = run_native(n_senders, n_msgs, n_drainers, n_stoppers, status0, seq, serialized)
     bad, div = concrete_oracle(prop, n_senders, n_msgs, n_drainers, n_stoppers, obs)
     attempts.append({'schedule': seq, 'violated': bad, 'diverged': div})
     if not bad:
@@ -84,7 +84,7 @@ def replay(prop, n_senders, n_msgs, n_drainers, n_stoppers, status0, sched, expe
             s2 = list(seq)
             # perturb: random interleaving preserving per-thread counts
             rnd.shuffle(s2)
-            obs = run_native(n_senders, n_msgs, n_drainers, n_stoppers, status0, s2)
+            obs = run_native(n_senders, n_msgs, n_drainers, n_stoppers, status0, s2, serialized)
             bad, div = concrete_oracle(prop, n_senders, n_msgs, n_drainers, n_stoppers, obs)
             if bad:
                 attempts.append({'schedule': s2, 'violated': bad, 'diverged': div})
@@ -92,13 +92,13 @@ def replay(prop, n_senders, n_msgs, n_drainers, n_stoppers, status0, sched, expe
                 break
     return {'replayed': bool(bad), 'detail': 'native run: violated %s (solver said %s); queue=%s flushed=%s results=%s status=%s' % (
         bad, expected_bad, obs['queue'], obs['flushed'], obs['results'], obs['status']),
-        'replay': {'scenario': 'mailbox', 'prop': prop, 'senders': n_senders, 'msgs': n_msgs, 'drainers': n_drainers, 'stoppers': n_stoppers, 'status0': status0,
+        'replay': {'scenario': 'mailbox', 'prop': prop, 'senders': n_senders, 'msgs': n_msgs, 'drainers': n_drainers, 'stoppers': n_stoppers, 'status0': status0, 'serialized': list(serialized),
                    'schedule': seq, 'violated': bad, 'model_schedule': [(t, lbl) for (_, t, _, lbl, _) in sched]}}
 
 
 def replay_from_json(d):
     rp = d['replay']
-    obs = run_native(rp['senders'], rp['msgs'], rp['drainers'], rp['stoppers'], rp['status0'], rp['schedule'])
+    obs = run_native(rp['senders'], rp['msgs'], rp['drainers'], rp['stoppers'], rp['status0'], rp['schedule'], rp.get('serialized', ()))
     bad, div = concrete_oracle(rp['prop'], rp['senders'], rp['msgs'], rp['drainers'], rp['stoppers'], obs)
     print('native run:', obs)
     print('violated:', bad)
